@@ -69,6 +69,7 @@ impl<E: 'static + Send> Drop for PanicReporter<E> {
     fn drop(&mut self) {
         if let Some(t) = self.0.take() {
             t.guard().set_err(scope::OrPanic::Panic);
+            #[cfg(feature = "verif")] crate::verif::event("rel", 0, 0);
         }
     }
 }
@@ -105,9 +106,11 @@ impl<E: 'static + Send> Task<E> {
         self,
         f: impl Future<Output = Result<T, E>>,
     ) -> Result<T, Terminated> {
+        #[cfg(feature = "verif")] crate::verif::note_kind(matches!(self, Self::Main(_)));
         let panic_reporter = PanicReporter::new(self);
         let res = f.await;
         let this = panic_reporter.defuse();
+        #[cfg(feature = "verif")] let _verif_rel = crate::verif::OnDrop("rel");
         match res {
             Ok(v) => Ok(v),
             Err(err) => {
@@ -120,9 +123,11 @@ impl<E: 'static + Send> Task<E> {
     /// Runs an sync blocking task in the scope. MUST be executed on a dedicated thread.
     /// See `Task::run` for behavior. See module docs for description of blocking tasks.
     pub(super) fn run_blocking<T>(self, f: impl FnOnce() -> Result<T, E>) -> Result<T, Terminated> {
+        #[cfg(feature = "verif")] crate::verif::note_kind(matches!(self, Self::Main(_)));
         let panic_reporter = PanicReporter::new(self);
         let res = f();
         let this = panic_reporter.defuse();
+        #[cfg(feature = "verif")] let _verif_rel = crate::verif::OnDrop("rel");
         match res {
             Ok(v) => Ok(v),
             Err(err) => {
